@@ -216,10 +216,11 @@ def generate(api):
     if not re.search(r"commands\.set\(\s*end::create\(\)\s*\)", load):
         raise api.GenError("%s: load: commands.set(end::create()) not found" % fc_rel)
     pk_rel = "duckscript_sdk/src/utils/pckg.rs"
-    pk = " ".join(api.fn_body(strip_comments(api.read(pk_rel)), "concat", pk_rel).split())
-    if pk != ('{ let mut package = String::from(parent); if !parent.is_empty() && !current.is_empty() '
-              '{ package.push_str("::"); } package.push_str(current); package }'):
-        raise api.GenError("%s: concat has an unexpected shape" % pk_rel)
+    # utils/pckg.rs::concat is NOT pinned to one spelling (selftest/refactors3 R5-1: an early return + format! is the same
+    # function): the names built with it here are compared on every run with what the loaded registry answers for every
+    # spelling (obligation "registry" of C04 / C05), and the function itself is under the translation tie `flowwhile`
+    # (Src_flowwhile_concat) whenever the translator understands its body.
+    api.fn_body(strip_comments(api.read(pk_rel)), "concat", pk_rel)       # it must still exist
     package = concat(std_pkg, fc_pkg)
 
     # every module's create() must hand its package to the commands it builds
